@@ -1699,8 +1699,11 @@ class HTMLDependency(MetadataNode):
 
         return Tag(
             "script",
-            # "</script>" in a script tag must be escaped
-            json.dumps(res, indent=indent).replace("</script>", "<\\/script>"),
+            # "</script" (in any letter case, whatever follows it) in a script tag must
+            # be escaped
+            re.sub(
+                "</(script)", r"<\\/\1", json.dumps(res, indent=indent), flags=re.IGNORECASE
+            ),
             type="application/json",
             data_html_dependency=True,
         )
